@@ -139,7 +139,13 @@ def run(out):
     if second:
         prev = {r["id"]: r for r in json.load(open(os.path.join(out, "results.json")))}
         idx["kept"] = [m for m in idx["kept"] if m["id"] in prev and not prev[m["id"]]["caught_by"]]
+    resfile = os.path.join(out, "results2.json" if second else "results.json")
+    if os.path.exists(resfile) and not second:
+        res = json.load(open(resfile))          # resume
+    done = {r["id"] for r in res}
     for m in idx["kept"]:
+        if m["id"] in done:
+            continue
         props = anchors.get(m["file"], [])
         if second:
             props = [p for p in props if p not in primary.get(m["file"], [])]
@@ -148,7 +154,7 @@ def run(out):
         sh(["git", "-C", REPO, "apply", os.path.join(out, "%d.diff" % m["id"])])
         try:
             def one(p):
-                rc, o = sh([os.path.join(ROOT, "check"), p, "--tier", "quick"], cwd=ROOT, timeout=3000)
+                rc, o = sh([os.path.join(ROOT, "check"), p, "--tier", "quick"], cwd=ROOT, timeout=3000, env={"VERIF_FAST": "1"})
                 line = next((x for x in o.splitlines() if x.startswith("VIOLATION")), "")
                 return p, rc, ("no-failing-input-found" in line)
             with ThreadPoolExecutor(len(props) or 1) as ex:
